@@ -182,3 +182,13 @@ func safeCanon(v otto.Value) (s string) {
 	}()
 	return ox.Canon(v)
 }
+
+// sparse picks roughly one case in n (by a hash of the key) for the evidence
+// samples, so that the few samples kept are spread over the family.
+func sparse(key string, n uint32) bool {
+	h := uint32(2166136261)
+	for i := 0; i < len(key); i++ {
+		h = (h ^ uint32(key[i])) * 16777619
+	}
+	return h%n == 0
+}
